@@ -1,4 +1,5 @@
 import MpfVerif.Lemmas.Writer
+import MpfVerif.Model.MachineVars
 /-!
 # C15 — Persistent data is durable, never torn, survives write failures
 
@@ -89,5 +90,34 @@ theorem failure_does_not_wedge (ops : List Op) (hc : ∀ o ∈ ops, o ≠ .crash
 /-- non-vacuity: a failed write followed by a later save -/
 example : (run {} ([.save 7, .step, .step, .step, .step, .step, .fail] ++ .save 8 :: List.replicate 10 .step)).disk = 8 := by
   decide
+
+/-- Persistent variables reload: the (name, value) pairs restored at the next boot at time `t` from what
+`_write_machine_vars_to_disk` wrote are exactly the variables that were marked persistent, with the value they had, whose
+expiry time is unset (or 0) or not before `t` — nothing else, and nothing altered. -/
+theorem vars_reload (vs : List MachineVars.MV) (t n : Nat) (val : Option Int) :
+    (n, val) ∈ MachineVars.reload (MachineVars.snapshot vs) t ↔
+      ∃ v ∈ vs, v.name = n ∧ v.value = val ∧ v.persist = true ∧ MachineVars.expired v.timeout t = false := by
+  unfold MachineVars.reload MachineVars.snapshot
+  simp only [List.mem_filterMap]
+  constructor
+  · rintro ⟨e, ⟨v, hv, hve⟩, he⟩
+    by_cases hp : v.persist = true
+    · simp only [hp, if_true, Option.some.injEq] at hve
+      subst hve
+      by_cases hx : MachineVars.expired v.timeout t = true
+      · simp [hx] at he
+      · simp only [hx, Bool.false_eq_true, if_false, Option.some.injEq, Prod.mk.injEq] at he
+        exact ⟨v, hv, he.1, he.2, hp, by simpa using hx⟩
+    · simp [hp] at hve
+  · rintro ⟨v, hv, rfl, rfl, hp, hx⟩
+    exact ⟨⟨v.name, v.value, v.timeout⟩, ⟨v, hv, by simp [hp]⟩, by simp [hx]⟩
+
+/-- non-vacuity: a persisted credit-like variable with a one-hour expiry set at t=100 reloads at t=3700 and not at 3701;
+a non-persisted one never does -/
+example : MachineVars.reload (MachineVars.setVar (MachineVars.setVar
+      { vars := MachineVars.configure [] 100 1 true 3600 } 100 1 (some 5) false) 100 2 (some 9) false).file 3700
+    = [(1, some 5)] := by decide
+example : MachineVars.reload (MachineVars.setVar { vars := MachineVars.configure [] 100 1 true 3600 } 100 1 (some 5) false).file 3701
+    = [] := by decide
 
 end MpfVerif.C15
